@@ -247,8 +247,17 @@ pub fn guard(f: impl FnOnce() -> Val + std::panic::UnwindSafe) -> Val {
     }
 }
 
-/// Run `f` on a helper thread; `Val::hang()` if it does not finish in time.
+/// Multiplier for every wait of the harness that turns into a verdict (`VERIF_PATIENCE`, default 1). The runner
+/// re-runs a case that ended in a hang alone, in a fresh process, with a larger value before it believes the hang:
+/// on a loaded machine a busy-waiting implementation can miss any fixed limit.
+pub fn patience() -> u64 {
+    static P: std::sync::OnceLock<u64> = std::sync::OnceLock::new();
+    *P.get_or_init(|| std::env::var("VERIF_PATIENCE").ok().and_then(|s| s.parse().ok()).filter(|p| *p >= 1).unwrap_or(1))
+}
+
+/// Run `f` on a helper thread; `Val::hang()` if it does not finish in time (`ms` times `patience()`).
 pub fn with_timeout(ms: u64, f: impl FnOnce() -> Val + Send + 'static) -> Val {
+    let ms = ms.saturating_mul(patience());
     let (tx, rx) = std::sync::mpsc::channel();
     let _ = std::thread::Builder::new()
         .stack_size(64 << 20)
@@ -304,6 +313,37 @@ pub trait Prop {
     }
 }
 
+/// replace this process by `gen` with the same arguments, starting at case `skip` (stdout is inherited)
+fn reexec_gen(args: &[String], skip: usize) -> ! {
+    use std::os::unix::process::CommandExt;
+    let mut a: Vec<String> = vec![];
+    let mut it = args.iter().skip(1);
+    while let Some(x) = it.next() {
+        if x == "--skip" {
+            it.next();
+        } else {
+            a.push(x.clone());
+        }
+    }
+    a.push("--skip".into());
+    a.push(skip.to_string());
+    let exe = std::env::current_exe().unwrap_or_else(|_| args[0].clone().into());
+    let err = std::process::Command::new(exe).args(&a).exec();
+    eprintln!("re-exec failed: {err}");
+    std::process::exit(4)
+}
+
+/// replace this process by `run` over the remaining input lines
+fn reexec_run(rest: &[String]) -> ! {
+    use std::os::unix::process::CommandExt;
+    let f = std::env::temp_dir().join(format!("verif-run-rest-{}-{}", std::process::id(), rest.len()));
+    let _ = std::fs::write(&f, rest.join("\n") + "\n");
+    let exe = std::env::current_exe().unwrap_or_else(|_| "".into());
+    let err = std::process::Command::new(exe).arg("run").arg("--lines-file").arg(&f).exec();
+    eprintln!("re-exec failed: {err}");
+    std::process::exit(4)
+}
+
 fn arg<'a>(args: &'a [String], name: &str) -> Option<&'a str> {
     args.iter()
         .position(|a| a == name)
@@ -348,7 +388,7 @@ pub fn main_loop(mut p: impl Prop) {
             // per-case guards did not catch) ends the process with what was printed so far
             let beat = std::sync::Arc::new(std::sync::Mutex::new(std::time::Instant::now()));
             let beat2 = beat.clone();
-            let limit: u64 = std::env::var("VERIF_CASE_TIMEOUT_S").ok().and_then(|s| s.parse().ok()).unwrap_or(90);
+            let limit: u64 = std::env::var("VERIF_CASE_TIMEOUT_S").ok().and_then(|s| s.parse().ok()).unwrap_or(90) * patience();
             std::thread::spawn(move || loop {
                 std::thread::sleep(std::time::Duration::from_millis(500));
                 if beat2.lock().unwrap().elapsed().as_secs() > limit {
@@ -356,12 +396,29 @@ pub fn main_loop(mut p: impl Prop) {
                     std::process::exit(3);
                 }
             });
-            for input in inputs {
+            let skip: usize = arg(&args, "--skip").and_then(|s| s.parse().ok()).unwrap_or(0);
+            if args.iter().any(|a| a == "--only-input") {
+                // print the input of case `skip` without running it (the runner re-runs the case a shard died in)
+                if let Some(v) = inputs.get(skip) {
+                    let _ = writeln!(out, "{}", v.to_sexp());
+                }
+                let _ = out.flush();
+                return;
+            }
+            for (i, input) in inputs.into_iter().enumerate().skip(skip) {
                 *beat.lock().unwrap() = std::time::Instant::now();
                 let _ = out.flush();
                 match p.run(&input) {
                     Some((o, tags)) => {
+                        let hung = o == Val::hang();
                         let _ = writeln!(out, "{}\t{}\t{}", input.to_sexp(), o.to_sexp(), tags.join(","));
+                        if hung {
+                            // the case left threads of the implementation behind (still spinning, still calling the
+                            // schedule points): nothing that runs in this process afterwards can be trusted.
+                            // Continue with the next case in a fresh process image (the leaked threads die with this one).
+                            let _ = out.flush();
+                            reexec_gen(&args, i + 1);
+                        }
                     }
                     None => {
                         let _ = writeln!(out, "{}\tINVALID\t", input.to_sexp());
@@ -370,13 +427,21 @@ pub fn main_loop(mut p: impl Prop) {
             }
         }
         "run" => {
-            let stdin = std::io::stdin();
-            for line in stdin.lock().lines() {
-                let Ok(line) = line else { break };
+            // all inputs are read up front: after a hang the rest is handed to a fresh process image (see `gen`)
+            let lines: Vec<String> = match arg(&args, "--lines-file") {
+                Some(f) => {
+                    let txt = std::fs::read_to_string(f).unwrap_or_default();
+                    let _ = std::fs::remove_file(f);
+                    txt.lines().map(|l| l.to_string()).collect()
+                }
+                None => std::io::stdin().lock().lines().map_while(|l| l.ok()).collect(),
+            };
+            for (li, line) in lines.iter().enumerate() {
                 let inp = line.split('\t').next().unwrap_or("");
                 let canon = Val::parse(inp).and_then(|v| p.canon(&v));
                 match canon.as_ref().and_then(|v| p.run(v)) {
                     Some((o, tags)) => {
+                        let hung = o == Val::hang();
                         let _ = writeln!(
                             out,
                             "{}\t{}\t{}",
@@ -384,6 +449,10 @@ pub fn main_loop(mut p: impl Prop) {
                             tags.join(","),
                             canon.as_ref().unwrap().to_sexp()
                         );
+                        if hung && li + 1 < lines.len() {
+                            let _ = out.flush();
+                            reexec_run(&lines[li + 1..]);
+                        }
                     }
                     None => {
                         let _ = writeln!(out, "INVALID\t");
